@@ -384,9 +384,15 @@ pub fn suite<S: HasR, const N: usize>(mon: &mut Monitor, api: &VecApi<S, N>) {
             // regular vectors, plus lattice-built degenerate ones (zero, subnormal, tiny, huge, non-finite)
             let (a, la): ([S; N], &'static str) = if it % 3 == 2 {
                 let mut v = [S::ZERO; N];
-                let mode = (it / 3) % 4;
+                let mode = (it / 3) % 5;
+                // mode 4: a single lane holding +-2^e: the squared length 2^(2e) is computed exactly, so the representability
+                // boundaries are hit exactly (2e = MIN_EXP - 1: the smallest normal squared length must still normalise)
+                let e4 = { let half = ((S::MIN_EXP2 - 1.0) / 2.0).round(); let hi = (S::MAX_EXP2 / 2.0).round(); match rng.below(3) { 0 => rng.int_in((S::MIN_EXP2 - 30.0) as i64, S::MAX_EXP2 as i64 - 1) as f64, 1 => half + rng.int_in(-13, 3) as f64, _ => hi + rng.int_in(-3, 2) as f64 } };
+                let k4 = rng.idx(N);
+                let s4 = if rng.bool() { 1.0 } else { -1.0 };
                 for k in 0..N {
                     v[k] = match mode {
+                        4 => if k == k4 { S::of(s4 * e4.exp2()) } else { S::ZERO },
                         0 => *rng.pick(lat),
                         1 => if k == (it as usize % N) { *rng.pick(lat) } else { S::ZERO },
                         2 => S::of(rng.normal() * (S::TINY * 1e3).sqrt() * 10f64.powf(rng.range(-4.0, 4.0))), // around the sqrt of MIN_POSITIVE
@@ -403,7 +409,9 @@ pub fn suite<S: HasR, const N: usize>(mon: &mut Monitor, api: &VecApi<S, N>) {
             let l2 = if finite_in { vdot(&ra, &ra).to_f64() } else { f64::NAN };
             // what glam computes: length_squared in S arithmetic; classify by the exact value with slack
             let l2_s = S::of(l2); // rounded exact squared length
-            let normal_l2 = finite_in && l2_s.finite() && l2 >= S::TINY * 8.0 && a.iter().all(|x| x.f64() == 0.0 || (x.f64() * x.f64()) >= S::TINY * 8.0 || (x.f64() * x.f64()) < l2 * eps * 1e-3);
+            // a single power-of-two lane: no rounding anywhere in the squared length, hence no slack at the boundary
+            let exact_l2 = finite_in && a.iter().filter(|x| x.f64() != 0.0).count() == 1 && a.iter().all(|x| x.f64() == 0.0 || x.f64().abs().log2().fract() == 0.0);
+            let normal_l2 = finite_in && l2_s.finite() && (l2 >= S::TINY * 8.0 || (exact_l2 && l2 >= S::MIN_EXP2.exp2())) && (exact_l2 || a.iter().all(|x| x.f64() == 0.0 || (x.f64() * x.f64()) >= S::TINY * 8.0 || (x.f64() * x.f64()) < l2 * eps * 1e-3));
             // exact 1/length is not finite-positive: zero vector, or non-finite input, or overflowing square
             let l2_over = finite_in && l2 > (1.0 / S::TINY) * 3.9; // > MAX with slack handled below
             let max_f = (2.0 - S::EPS) * (1.0 / S::TINY) * 2.0; // MAX
